@@ -470,10 +470,10 @@ Proof.
     fold (undo_shape f u p u1) in U1.
     destruct (mk_parent_dirs f (mk_tgt [] p)) as [f2 [e|]] eqn:MK;
       apply mk_parent_dirs_spec in MK; try exact W; destruct MK as [W2 E2].
-    { intros H; inversion H; subst. intros q. cbn [s_fs s_undo]. eapply phase2_fail; eassumption. }
+    { intros H; inversion H; subst. intros q. cbn [s_fs s_undo with_fs]. eapply phase2_fail; eassumption. }
     destruct (os_write f2 (mk_tgt [] p) content) as [f3|e] eqn:WR.
-    2:{ intros H; inversion H; subst. intros q. cbn [s_fs s_undo]. eapply phase2_fail; eassumption. }
-    intros H; inversion H; subst. cbn [post s_fs s_undo].
+    2:{ intros H; inversion H; subst. intros q. cbn [s_fs s_undo with_fs]. eapply phase2_fail; eassumption. }
+    intros H; inversion H; subst. cbn [post s_fs s_undo with_fs].
     apply os_write_ok in WR. destruct WR as [CLN [PD2 [L2 ->]]]. pose proof CLN as [_ [_ [_ KN]]].
     apply (create_ok f u p); try assumption.
     + apply (shape_none f); assumption.
@@ -489,8 +489,8 @@ Proof.
     apply record_undo_cases in RU. destruct RU as [F1 U1]. destruct s1 as [f1 u1]. cbn [s_fs s_undo with_fs] in *. subst f1.
     fold (undo_shape f u p u1) in U1.
     destruct (os_remove_file f (mk_tgt [] p)) as [f2|e] eqn:RM.
-    2:{ intros H; inversion H; subst. intros q. cbn [s_fs s_undo]. eapply phase1_fail; eassumption. }
-    intros H; inversion H; subst. cbn [post s_fs s_undo].
+    2:{ intros H; inversion H; subst. intros q. cbn [s_fs s_undo with_fs]. eapply phase1_fail; eassumption. }
+    intros H; inversion H; subst. cbn [post s_fs s_undo with_fs].
     apply os_remove_ok in RM. destruct RM as [CLN [PD [[b0 L0] ->]]]. pose proof CLN as [_ [_ [_ KN]]].
     apply (touch_ok f u p b0); try assumption.
     + eapply shape_some; eassumption.
@@ -503,7 +503,7 @@ Proof.
     apply record_undo_cases in RU. destruct RU as [F1 U1]. destruct s1 as [f1 u1]. cbn [s_fs s_undo with_fs] in *. subst f1.
     fold (undo_shape f u p u1) in U1.
     assert (FAIL1 : forall e, post f u {| s_fs := f; s_undo := u1 |} (Some e)).
-    { intros e q. cbn [s_fs s_undo]. eapply phase1_fail; eassumption. }
+    { intros e q. cbn [s_fs s_undo with_fs]. eapply phase1_fail; eassumption. }
     destruct (os_read f (mk_tgt [] p)) as [b|e] eqn:RD; [|intros H; inversion H; subst; apply FAIL1].
     destruct (utf8_ok b); cbn [negb]; [|intros H; inversion H; subst; apply FAIL1].
     destruct (apply_hunks_to_text b hs) as [b'|]; [|intros H; inversion H; subst; apply FAIL1].
@@ -518,22 +518,22 @@ Proof.
       - apply dirs_le_set_file; [exact KN|congruence].
       - intros q NE. rewrite file_at_set by exact KN. apply path_eqb_false in NE. rewrite path_eqb_sym, NE. reflexivity. }
     destruct P1 as [HC2 EQ1].
-    destruct mv as [q|]; [|intros H; inversion H; subst; cbn [post s_fs s_undo]; split; assumption].
+    destruct mv as [q|]; [|intros H; inversion H; subst; cbn [post s_fs s_undo with_fs]; split; assumption].
     set (f2 := set f (comps p) (File b')) in *.
     assert (INP : In (comps p) (keys u1)).
     { destruct SH1 as [[I ->]|[_ ->]]; [exact I|]. rewrite keys_app. apply in_or_app. right. left. reflexivity. }
     assert (TRIV2 : forall e, post f u {| s_fs := f2; s_undo := u1 |} (Some e)).
-    { intros e x. cbn [s_fs s_undo]. rewrite <- EQ1. apply revert_spec. exact HC2. }
+    { intros e x. cbn [s_fs s_undo with_fs]. rewrite <- EQ1. apply revert_spec. exact HC2. }
     destruct (os_exists f2 (mk_tgt [] q)) eqn:XQ; [intros H; inversion H; subst; apply TRIV2|].
     destruct (record_undo [] _ q) as [s3|e] eqn:RU3; [|intros H; inversion H; subst; apply TRIV2].
     apply record_undo_cases in RU3. destruct RU3 as [F3 U3]. destruct s3 as [f3 u3]. cbn [s_fs s_undo with_fs] in *. subst f3.
     fold (undo_shape f2 u1 q u3) in U3.
     destruct (mk_parent_dirs f2 (mk_tgt [] q)) as [f4 [e|]] eqn:MK;
       apply mk_parent_dirs_spec in MK; try exact W2; destruct MK as [W4 E4].
-    { intros H; inversion H; subst. intros x. cbn [s_fs s_undo]. rewrite <- EQ1. eapply phase2_fail; eassumption. }
+    { intros H; inversion H; subst. intros x. cbn [s_fs s_undo with_fs]. rewrite <- EQ1. eapply phase2_fail; eassumption. }
     destruct (os_rename_file f4 (mk_tgt [] p) (mk_tgt [] q)) as [f5|e] eqn:RN.
-    2:{ intros H; inversion H; subst. intros x. cbn [s_fs s_undo]. rewrite <- EQ1. eapply phase2_fail; eassumption. }
-    intros H; inversion H; subst. cbn [post s_fs s_undo].
+    2:{ intros H; inversion H; subst. intros x. cbn [s_fs s_undo with_fs]. rewrite <- EQ1. eapply phase2_fail; eassumption. }
+    intros H; inversion H; subst. cbn [post s_fs s_undo with_fs].
     apply os_rename_ok in RN. destruct RN as [_ [PDS [CLQ [PDQ [LQ [b2 [LS ->]]]]]]].
     pose proof CLQ as [_ [_ [_ KQ]]].
     assert (WU : fs_wf (unset f4 (comps p))) by (eapply wf_unset_file; eassumption).
@@ -562,7 +562,7 @@ Qed.
 Lemma run_inv : forall ops f u s' r, C f u -> run [] {| s_fs := f; s_undo := u |} ops = (s', r) -> post f u s' r.
 Proof.
   induction ops as [|o ops IH]; intros f u s' r HC; cbn [run].
-  - intros H; inversion H; subst. cbn [post s_fs s_undo]. split; [exact HC|reflexivity].
+  - intros H; inversion H; subst. cbn [post s_fs s_undo with_fs]. split; [exact HC|reflexivity].
   - destruct (exec [] _ o) as [s1 [e|]] eqn:E; apply exec_inv in E; try exact HC.
     + intros H; inversion H; subst. exact E.
     + cbn [post] in E. destruct E as [HC1 EQ1]. destruct s1 as [f1 u1]. cbn [s_fs s_undo] in *.
@@ -600,11 +600,30 @@ Proof.
 Qed.
 
 (* the revert restores files only: directories created on the way stay (they hold no file) *)
+Require Import Coq.Strings.String.
+Definition dirwit_patch : list N :=
+  intercalate [10] [bs "*** Begin Patch"%string; bs "*** Add File: d/x"%string; bs "+1"%string;
+                    bs "*** Delete File: nope"%string; bs "*** End Patch"%string].
+Definition dirwit_after : fs := [([bs "d"%string], Dir)].
+Lemma dirwit_run : apply_patch true [] [] dirwit_patch = Failed dirwit_after ENOENT.
+Proof. vm_compute. reflexivity. Qed.
+Lemma wf_empty : fs_wf [].
+Proof.
+  split; [constructor|]. split; [intros []|]. intros x s n L Hs.
+  destruct x as [|x0 x]; [reflexivity|]. cbn in L. discriminate.
+Qed.
 Theorem failed_keeps_dirs_refuted :
   exists f input g e p, fs_wf f /\ apply_patch true [] f input = Failed g e /\ lookup f p = None /\ lookup g p = Some Dir.
 Proof.
-  exists [], (intercalate [10] [bs "*** Begin Patch"; bs "*** Add File: d/x"; bs "+1"; bs "*** Delete File: nope"; bs "*** End Patch"]),
-         [([bs "d"], Dir)], ENOENT, [bs "d"].
-  split; [split; [constructor|split; [intros []|intros x s n L Hs; destruct x; [reflexivity|destruct s; [congruence|cbn in L; discriminate]]]]|].
-  split; [vm_compute; reflexivity|]. split; vm_compute; reflexivity.
+  exists [], dirwit_patch, dirwit_after, ENOENT, [bs "d"%string].
+  split; [exact wf_empty|]. split; [exact dirwit_run|]. split; vm_compute; reflexivity.
+Qed.
+
+(* a well-formed non-empty workspace on which a patch fails half-way (non-vacuity of the hypotheses) *)
+Lemma wf_single a b : fs_wf [([a], File b)].
+Proof.
+  split; [constructor; [intros []|constructor]|]. split; [intros [H|[]]; discriminate|].
+  intros x s n L Hs. destruct x as [|x0 x]; [reflexivity|]. exfalso.
+  cbn [lookup app assoc] in L. destruct (path_eqb [a] (x0 :: x ++ s)) eqn:E; [|discriminate].
+  peq. inversion E as [[E1 E2]]. symmetry in E2. apply app_eq_nil in E2. destruct E2. contradiction.
 Qed.
